@@ -192,6 +192,8 @@ def prepare_evo_aspirate_dispense_parameters(
         if isinstance(tip, int) and not isinstance(tip, Tip):
             # User-specified integers from 1-8 need to be converted to Tecan logic
             tip = int_to_tip(tip)
+        if tip == Tip.Any:
+            raise ValueError("Invalid tips: Tip.Any can not be used in EVO script commands.")
         tecan_tips.append(tip)
 
     if arm is None:
@@ -450,6 +452,8 @@ def prepare_evo_wash_parameters(
         if isinstance(tip, int) and not isinstance(tip, Tip):
             # User-specified integers from 1-8 need to be converted to Tecan logic
             tip = int_to_tip(tip)
+        if not isinstance(tip, Tip) or tip == Tip.Any:
+            raise ValueError(f"Invalid tips: {tip}. Has to be an int from 1 - 8 or a Tip other than Tip.Any.")
         tecan_tips.append(tip)
 
     if waste_location is None:
